@@ -10,6 +10,7 @@ def PCok (st : St) : PC → Prop
   | .openLoad s => 1 ≤ s ∧ s ≤ st.snaps.length
   | .closeDec s => 1 ≤ s ∧ s ≤ st.snaps.length
   | .closeRetire s => 1 ≤ s ∧ s ≤ st.snaps.length
+  | .closeRetire2 s => 1 ≤ s ∧ s ≤ st.snaps.length
   | .openCas s rc => 1 ≤ s ∧ s ≤ st.snaps.length ∧ 0 < rc
   | .collectSend s => s = st.lastGCSn + 1 ∧ s ∈ st.dead
   | _ => True
@@ -18,15 +19,18 @@ structure Inv (cfg : Cfg) (st : St) : Prop where
   /-- counting invariant: count = held references + references in flight to their decrement -/
   count : ∀ s, 1 ≤ s → s ≤ st.snaps.length →
     (getS st s).refs = ((getS st s).held : Int) + (cnt (uDec s) st.ths : Int)
-  /-- a snapshot whose count is 0 was retired once or its closer is parked before retiring it;
-      a snapshot whose count is not 0 was never retired and nobody is about to -/
+  /-- a snapshot whose count is 0 was retired once or its closer is parked before one of the two
+      list operations; a snapshot whose count is not 0 was never retired and nobody is about to -/
   retire : ∀ s, 1 ≤ s → s ≤ st.snaps.length →
-    (getS st s).retired + cnt (uRet s) st.ths = if (getS st s).refs = 0 then 1 else 0
+    (getS st s).retired + cnt (uRet s) st.ths + cnt (uRet2 s) st.ths =
+      if (getS st s).refs = 0 then 1 else 0
   pcs : ∀ (j : Nat) (pc : PC), st.ths[j]? = some pc → PCok st pc
   /-- a retired snapshot is in the dead list or was handed to the workers -/
   place : ∀ s, 1 ≤ s → s ≤ st.snaps.length →
     ((getS st s).retired = 1 ↔ (s ∈ st.dead ∨ s ≤ st.lastGCSn))
-  live_iff : ∀ s, s ∈ st.live ↔ (1 ≤ s ∧ s ≤ st.snaps.length ∧ (getS st s).retired = 0)
+  /-- in the live list: not retired and not between the two list operations of its closer -/
+  live_iff : ∀ s, s ∈ st.live ↔
+    (1 ≤ s ∧ s ≤ st.snaps.length ∧ (getS st s).retired = 0 ∧ cnt (uRet2 s) st.ths = 0)
   dead_valid : ∀ s, s ∈ st.dead → 1 ≤ s ∧ s ≤ st.snaps.length ∧ st.lastGCSn < s
   gc_le : st.lastGCSn ≤ st.snaps.length
   dead_sorted : st.dead.Pairwise (· < ·)
@@ -62,9 +66,13 @@ theorem Inv.head_of_mem {cfg : Cfg} {st : St} (h : Inv cfg st) (hm : st.lastGCSn
 theorem inv_setT {cfg : Cfg} {st : St} {i : Nat} {pc pc' : PC} (h : Inv cfg st)
     (hi : st.ths[i]? = some pc) (hok : PCok st pc')
     (hdec : ∀ s, uDec s pc' = uDec s pc) (hret : ∀ s, uRet s pc' = uRet s pc)
-    (hcrit : uCrit pc' = uCrit pc)
+    (hret2 : ∀ s, uRet2 s pc' = uRet2 s pc) (hcrit : uCrit pc' = uCrit pc)
     (hresp : cfg.fixedGC = true → (st.lastGCSn + 1) ∈ st.dead → uResp pc ≤ uResp pc' ∨ st.flag = true) :
     Inv cfg (setT st i pc') := by
+  have hc2 : ∀ s, cnt (uRet2 s) (st.ths.set i pc') = cnt (uRet2 s) st.ths := by
+    intro s
+    have e := cnt_set (uRet2 s) st.ths i pc pc' hi
+    rw [hret2] at e; omega
   constructor
   · intro s h1 h2
     have := h.count s h1 h2
@@ -76,14 +84,19 @@ theorem inv_setT {cfg : Cfg} {st : St} {i : Nat} {pc pc' : PC} (h : Inv cfg st)
     have := h.retire s h1 h2
     have e := cnt_set (uRet s) st.ths i pc pc' hi
     rw [hret] at e
-    show (getS st s).retired + cnt (uRet s) (st.ths.set i pc') = if (getS st s).refs = 0 then 1 else 0
+    show (getS st s).retired + cnt (uRet s) (st.ths.set i pc') + cnt (uRet2 s) (st.ths.set i pc') =
+      if (getS st s).refs = 0 then 1 else 0
+    rw [hc2]
     omega
   · intro j pcj hj
     rcases set_getElem?_cases hj with ⟨_, rfl⟩ | ⟨_, hj'⟩
     · exact PCok_mono rfl (fun _ _ a b => ⟨a, b⟩) hok
     · exact PCok_mono rfl (fun _ _ a b => ⟨a, b⟩) (h.pcs j pcj hj')
   · exact h.place
-  · exact h.live_iff
+  · intro s
+    show s ∈ st.live ↔ (1 ≤ s ∧ s ≤ st.snaps.length ∧ (getS st s).retired = 0 ∧
+      cnt (uRet2 s) (st.ths.set i pc') = 0)
+    rw [hc2]; exact h.live_iff s
   · exact h.dead_valid
   · exact h.gc_le
   · exact h.dead_sorted
